@@ -354,7 +354,7 @@ static void blocks()
     {
         for (size_t c = 1; c <= 3; ++c)
         {
-            std::vector<a_real> X(len * c + 4, G), Y(len * c + 4, G);
+            std::vector<a_real> X(len * c + 4, (a_real)-1234.5), Y(len * c + 4, (a_real)4321.25); // between the strided elements: values of their own, different from the guard cells of every destination
             long s = 0, s1 = 0, s2 = 0, dt = 0;
             for (size_t i = 0; i < len; ++i)
             {
